@@ -2,13 +2,16 @@ import AiocoapModel.Basic.Bytes
 import AiocoapModel.Observe.Client
 import AiocoapModel.Observe.Joint
 import AiocoapModel.Observe.Iterator
+import AiocoapModel.Observe.Upper
 import AiocoapModel.Driver.MsgLayer
 /-!
 Line protocol for C07.
 
 `C07 F <reset> <v1> <t1> <v2> <t2>`                      → `1`/`0` (`fresher`)
 `C07 R <reset> <observe 0|1> <event>*`                    the runner of `Request._run`
-   events: `M@t:code:obs|-:body:last`  message      `X@t:k`  exception
+   events: `M@t:code:obs|-:body:last[:cancels]`  message (`cancels` = 1: the application calls
+           `observation.cancel()` from inside the callback that hands it this message)
+           `X@t:k`  exception
            `OC@t`  observation.cancel()             `RC@t`  response.cancel()
    → one group per event, separated by blanks: `<deliveries,comma|.>/<E|->` where `E` says the
      runner has ended (the pipe has no interest left).  Deliveries:
@@ -29,6 +32,12 @@ Line protocol for C07.
 `C07 A <delivery>* | <op>*`                                `__aiter__` on an observation that has
    been through the deliveries (`cb:<n>` / `eb:<N|C|Tk>`) already, then ops as for `I`
    → the groups of the ops after the `|` (the replay is visible in the first group's state)
+`C07 U <event>*`                                           the loop of `BlockwiseRequest._run_observation`
+   events: `I<n>:<ok|skip|net>[:c]` the lower iteration yields notification n, and its body is fetched /
+           the fetch fails with an error that is no network error / with a network error (`:c`: the
+           application cancels from inside the callback); `F<code>:<ok|skip|net>[:c]` the same for the final
+           response; `stop` / `raise` the lower iteration ends
+   → one group per event: `.` | `cb:<n>` | `cb:x<code>` | `eb:ObservationCancelled` | `eb:T`
 -/
 namespace Aiocoap
 open Aiocoap.Observe
@@ -64,6 +73,10 @@ def parseEvent (s : String) : Option TEvent :=
     match kind, rest.splitOn ":" with
     | "M", [t, code, obs, body, last] => do
       let m : Msg := { code := ← code.toNat?, obs := ← parseOptNat obs, body := ← body.toNat? }
+      pure { time := ← t.toNat?, ev := .message m (← parseBool last) }
+    | "M", [t, code, obs, body, last, c] => do
+      let m : Msg := { code := ← code.toNat?, obs := ← parseOptNat obs, body := ← body.toNat?,
+                       cancels := ← parseBool c }
       pure { time := ← t.toNat?, ev := .message m (← parseBool last) }
     | "X", [t, k] => do pure { time := ← t.toNat?, ev := .exception (← k.toNat?) }
     | "OC", [t] => do pure { time := ← t.toNat?, ev := .obsCancel }
@@ -212,6 +225,38 @@ def iterAnswer (s : Iter.St Nat) (ops : List (Iter.Op Nat)) : String :=
   | some gs => if gs.isEmpty then "-" else " ".intercalate gs
   | none => "out-of-model"
 
+-- the loop of BlockwiseRequest._run_observation ------------------------------------------------------
+
+def parseFetch (s : String) : Option Upper.Fetch :=
+  if s = "ok" then some .ok else if s = "skip" then some .failed else if s = "net" then some (.network 0)
+  else none
+
+/-- items are identified by the label the harness gave them (`<n>` / `x<code>`) -/
+def parseLowerEv (s : String) : Option (Upper.LowerEv String) :=
+  if s = "stop" then some .stop
+  else if s = "raise" then some (.raise 0)
+  else
+    let label (id : String) : Option String :=
+      if id.startsWith "I" then some (id.drop 1).toString
+      else if id.startsWith "F" then some ("x" ++ (id.drop 1).toString)
+      else none
+    match s.splitOn ":" with
+    | [id, f] => do pure (.item (← label id) (← parseFetch f) false)
+    | [id, f, "c"] => do pure (.item (← label id) (← parseFetch f) true)
+    | _ => none
+
+def upperOutStr : Upper.Out String → String
+  | .callback m => "cb:" ++ m
+  | .errback .observationCancelled => "eb:ObservationCancelled"
+  | .errback .notObservable => "eb:NotObservable"
+  | .errback (.transport _) => "eb:T"
+
+def upperGroups (s : Upper.St) : List (Upper.LowerEv String) → List String
+  | [] => []
+  | e :: es =>
+    let r := Upper.step s e
+    (if r.2.isEmpty then "." else ",".intercalate (r.2.map upperOutStr)) :: upperGroups r.1 es
+
 end Observe
 
 def handleC07 (args : List String) : String :=
@@ -229,6 +274,10 @@ def handleC07 (args : List String) : String :=
       | none => "out-of-model"
     | _, _, _ => "bad-op"
   | "J" :: reset :: observe :: rest => handleJoint reset observe rest
+  | "U" :: evs =>
+    match evs.mapM parseLowerEv with
+    | some evs => if evs.isEmpty then "-" else " ".intercalate (upperGroups .running evs)
+    | none => "bad-op"
   | "I" :: ops =>
     match ops.mapM parseIterOp with
     | some ops => iterAnswer Iter.init ops
